@@ -11,6 +11,7 @@
 mod call;
 mod fobj;
 mod foreign;
+mod genpay;
 mod interp;
 mod obj;
 mod sched;
